@@ -9,6 +9,7 @@ import (
 	"go/token"
 	"go/types"
 	"reflect"
+	"sort"
 	"strings"
 	"unsafe"
 
@@ -1146,6 +1147,13 @@ func (p *Program) igxSkip(fn *ssa.Function, skip map[*ssa.Function]bool) *IG {
 			}
 		}
 	}
+	type phiRet struct {
+		y      *ssa.Function
+		b      *ssa.BasicBlock // the caller's block containing the call and the branch on its result
+		ifi    *ssa.If
+		resIdx int
+	}
+	var phiRets []phiRet
 	for _, f := range fns {
 		for _, b := range f.Blocks {
 			base := first[b]
@@ -1175,6 +1183,9 @@ func (p *Program) igxSkip(fn *ssa.Function, skip map[*ssa.Function]bool) *IG {
 						if ifi != nil || !pure {
 							break
 						}
+					}
+					if ifi != nil && pure {
+						phiRets = append(phiRets, phiRet{y, b, ifi, resIdx})
 					}
 					for _, yb := range y.Blocks {
 						ret, isRet := yb.Instrs[len(yb.Instrs)-1].(*ssa.Return)
@@ -1227,6 +1238,65 @@ func (p *Program) igxSkip(fn *ssa.Function, skip map[*ssa.Function]bool) *IG {
 					}
 				case *ssa.Panic:
 					g.Panic = append(g.Panic, n)
+				}
+			}
+		}
+	}
+	// a helper that returns a named boolean result (`return adopted`) ends in a block [phi; return phi]: every edge into that
+	// block on which the phi is a constant is threaded straight into the caller's branch on the result
+	for _, pr := range phiRets {
+		fc, _ := condFact(pr.ifi.Cond, true)
+		if !fc.Bool {
+			continue
+		}
+		for _, yb := range pr.y.Blocks {
+			ret, isRet := yb.Instrs[len(yb.Instrs)-1].(*ssa.Return)
+			if !isRet || pr.resIdx >= len(ret.Results) {
+				continue
+			}
+			ph, isPhi := ret.Results[pr.resIdx].(*ssa.Phi)
+			if !isPhi || ph.Block() != yb {
+				continue
+			}
+			pureRB := true
+			for _, in := range yb.Instrs[:len(yb.Instrs)-1] {
+				switch in.(type) {
+				case *ssa.Phi, *ssa.DebugRef:
+				default:
+					pureRB = false
+				}
+			}
+			if !pureRB {
+				continue
+			}
+			for k, pred := range yb.Preds {
+				if k >= len(ph.Edges) {
+					continue
+				}
+				bv, isC := constBool(ph.Edges[k])
+				if !isC {
+					continue
+				}
+				cnt := 0
+				for _, sb := range pred.Succs {
+					if sb == yb {
+						cnt++
+					}
+				}
+				if cnt != 1 {
+					continue
+				}
+				holds := (fc.Op == token.NEQ) == bv
+				si := 1
+				if holds {
+					si = 0
+				}
+				tgt := g.targetNode(p.resolveEdge(pr.b, pr.b.Succs[si]), first)
+				ln := first[pred] + len(pred.Instrs) - 1
+				for j, t := range g.Succ[ln] {
+					if t == first[yb] {
+						g.Succ[ln][j] = tgt
+					}
 				}
 			}
 		}
@@ -1554,4 +1624,42 @@ func (g *IG) valuesDepth(v ssa.Value, depth int) []ssa.Value {
 		}
 	}
 	return []ssa.Value{w}
+}
+
+// effectiveReturns: the Return nodes that produce result #idx of the return at node ex — ex itself, or, when it returns the
+// result of a spliced-in single-result helper, that helper's Return nodes (recursively).
+func (g *IG) effectiveReturns(ex, idx int) []int {
+	ret, ok := g.Nodes[ex].(*ssa.Return)
+	if !ok || idx >= len(ret.Results) {
+		return []int{ex}
+	}
+	v := g.res(retOperand(ret, idx))
+	c, isC := v.(*ssa.Call)
+	if !isC {
+		return []int{ex}
+	}
+	y := g.Inlined[c]
+	if y == nil || y.Signature.Results().Len() != 1 {
+		return []int{ex}
+	}
+	var out []int
+	for _, b := range y.Blocks {
+		if r2, isR := b.Instrs[len(b.Instrs)-1].(*ssa.Return); isR {
+			out = append(out, g.effectiveReturns(g.Idx[r2], 0)...)
+		}
+	}
+	if len(out) == 0 {
+		return []int{ex}
+	}
+	return out
+}
+
+// inlinedCalls: the call sites spliced into the graph, in node order.
+func (g *IG) inlinedCalls() []*ssa.Call {
+	var out []*ssa.Call
+	for c := range g.Inlined {
+		out = append(out, c)
+	}
+	sort.Slice(out, func(i, j int) bool { return g.Idx[out[i]] < g.Idx[out[j]] })
+	return out
 }
